@@ -23,6 +23,11 @@ type reachCursor struct {
 	adjacentIdx int
 	reach       cardinality.Duplex[uint64]
 	ancestor    *reachCursor
+
+	// incomplete is set when an adjacent component was skipped because this search had already visited it
+	// and its reach could not be merged in. The reach of such a cursor lacks that component's descendants
+	// and must not be cached.
+	incomplete bool
 }
 
 // Complete merges the reach bitmap of this cursor into its ancestor’s bitmap.
@@ -31,6 +36,10 @@ type reachCursor struct {
 func (s *reachCursor) Complete() {
 	if s.ancestor != nil {
 		s.ancestor.reach.Or(s.reach)
+
+		if s.incomplete {
+			s.ancestor.incomplete = true
+		}
 	}
 }
 
@@ -225,8 +234,12 @@ func (s *ReachabilityCache) componentReachDFS(component uint64, direction graph.
 			// Complete the cursor to roll up reach cardinalities
 			nextCursor.Complete()
 
-			// Update the cache with this component's reach
-			s.cacheComponentReach(nextCursor, direction)
+			// Update the cache with this component's reach. The root cursor's reach doubles as the visited set
+			// of the search and is complete once the search ends; any other cursor may only be cached if none
+			// of its descendants was skipped.
+			if nextCursor == rootCursor || !nextCursor.incomplete {
+				s.cacheComponentReach(nextCursor, direction)
+			}
 		} else if rootCursor.reach.CheckedAdd(nextAdjacentComponent) {
 			// This is a component not yet visited, check if it is cached. If it
 			// is cached, Or(...) its reach and if not traverse into it.
@@ -235,6 +248,12 @@ func (s *ReachabilityCache) componentReachDFS(component uint64, direction graph.
 			} else {
 				stack.PushBack(s.newReachCursor(nextAdjacentComponent, direction, nextCursor))
 			}
+		} else if cachedReach, cached := s.cachedComponentReach(nextAdjacentComponent, direction); cached {
+			// Already visited through another branch of this search: its descendants belong to this
+			// cursor's reach as well
+			nextCursor.reach.Or(cachedReach)
+		} else {
+			nextCursor.incomplete = true
 		}
 	}
 
